@@ -409,6 +409,29 @@ pub fn make_case(seed: u64, run: u64, thorough: bool, _stats: &mut Stats) -> Opt
     if r.chance(12) {
         return parser_case(seed, run, &mut r, thorough);
     }
+    if r.chance(8) {
+        // an intact program that talks to the console, with no input, too little input or plenty:
+        // a service or a prompt that meets the end of input must still let the run end
+        let mut feat = Feat::swarm(&mut r, 50);
+        feat.int21 = true;
+        feat.int10 |= r.chance(50);
+        feat.int3 |= r.chance(30);
+        feat.tf = r.chance(15);
+        feat.flags_under_tf = true;
+        let cfg = GenCfg { feat, layout: Layout::swarm(&mut r), body_lo: 2, body_hi: *r.pick(&[4, 10, 20]) };
+        let mut pr = r.fork("program");
+        let p = generate(&mut pr, &cfg);
+        let mut c = storage_case(seed, run, p.render().into_bytes(), vec![], r.chance(40));
+        c.scn.stdin.bytes = Bytes(match r.below(4) {
+            0 => Vec::new(),
+            1 => b"x\n".to_vec(),
+            2 => b"n\nn\nhello".to_vec(),
+            _ => script(),
+        });
+        c.config = "console_program_intact".to_owned();
+        c.faults = vec!["stdin_runs_dry".to_owned()];
+        return Some(c);
+    }
     let base = |r: &mut Rng| -> (String, Vec<u8>) {
         if r.chance(45) && !ex.is_empty() {
             ex[r.usize_below(ex.len())].clone()
